@@ -24,4 +24,5 @@ VIEW view
 INVARIANTS
   TypeOK
   Inv_C14
+  Inv_SubspaceIsCommitted
 CHECK_DEADLOCK FALSE
